@@ -2,6 +2,24 @@
 """Regenerates lean/obligations.json: property id -> module + names of every `theorem` in
 lean/CelModel/Props/<id>.lean (the property theorems; helper lemmas live under Lemmas/)."""
 import json, os, re
+
+def strip_comments(src):
+    out, depth, i = [], 0, 0
+    while i < len(src):
+        if src.startswith("/-", i):
+            depth += 1; i += 2
+        elif src.startswith("-/", i) and depth > 0:
+            depth -= 1; i += 2
+        elif depth > 0:
+            if src[i] == "\n":
+                out.append("\n")
+            i += 1
+        elif src.startswith("--", i):
+            while i < len(src) and src[i] != "\n":
+                i += 1
+        else:
+            out.append(src[i]); i += 1
+    return "".join(out)
 ROOT = os.path.dirname(os.path.abspath(__file__))
 out = {}
 d = os.path.join(ROOT, "lean", "CelModel", "Props")
@@ -10,7 +28,7 @@ for f in sorted(os.listdir(d)):
     if not m:
         continue
     pid = m.group(1)
-    src = open(os.path.join(d, f), encoding="utf-8").read()
+    src = strip_comments(open(os.path.join(d, f), encoding="utf-8").read())
     ns = re.search(r"^namespace\s+(\S+)", src, re.M).group(1)
     names = re.findall(r"^theorem\s+(\S+)", src, re.M)
     ent = out.setdefault(pid, {"modules": [], "theorems": []})
